@@ -6,29 +6,28 @@ import ChibiVerif.Lemmas.InitSimInit2
 namespace ChibiVerif.InitSpec
 open ChibiVerif.Init
 
-/-- **parser = 6.7.9** for every declared type without an array of unknown bound or flexible array member, every token list and
-    every fuel: where both accept, outside the regions, they build the same tree and stop at the same token. -/
-theorem parse_spec_subOk {f : Nat} {ty : Ty} {toks : List ITok} {p : Init × List ITok} {r : Result} (ho : subOk ty = true)
-    (hp : initializer2 f ty toks (newInit ty true) = .ok p) (hs : initFull ty toks = .ok r) (hc : r.fl.clean = true) :
+/-- p14/p15 for the declared object: `= { "…" }` is `= "…"` -/
+theorem initFull_bracedLit {ty : Ty} {r0 : List ITok} {tok1 : ITok} {r1 : List ITok} (hbl : bracedLit ty r0 = some (tok1, r1)) :
+    initFull ty (.lbrace :: r0) = initFull ty (tok1 :: r1) := by
+  unfold initFull
+  simp only [hbl]
+  unfold bracedLit at hbl
+  split at hbl <;> first
+    | cases hbl
+    | (split at hbl
+       · rename_i hc; cases hbl; simp only [chrFits_strFits hc, ↓reduceIte]
+       · cases hbl)
+
+/-- `parse_spec_subOk` for an initializer that does not start with `{` -/
+theorem parse_spec_subOk_tok {f : Nat} {ty : Ty} {tok : ITok} {r0 : List ITok} {p : Init × List ITok} {r : Result}
+    (ho : subOk ty = true) (hb : tok ≠ .lbrace)
+    (hp : initializer2 f ty (tok :: r0) (newInit ty true) = .ok p) (hs : initFull ty (tok :: r0) = .ok r) :
     p.1 = r.obj ∧ p.2 = r.rest := by
   obtain ⟨c', rest⟩ := p
   rw [newInit_true_eq ty ho] at hp
   have hz : shaped ty (newInit ty false) = true := shaped_newInit ty ho
   have hne : hasExpr (newInit ty false) = false := hasExpr_newInit ty false
-  cases toks with
-  | nil => cases hs
-  | cons tok r0 =>
-    by_cases hb : tok = .lbrace
-    · subst hb
-      obtain ⟨hs', hsim⟩ := braceSim_init2 ho hz hp
-      unfold initFull at hs
-      simp only at hs
-      obtain ⟨res, hres, hs⟩ := bind_eq_ok hs
-      cases hs
-      rw [newInit_true_eq ty ho, unflex_shaped hz] at hres
-      obtain ⟨h1, h2, h3⟩ := hsim hne true _ _ res hres hc
-      exact ⟨h1.symm, h2.symm⟩
-    · cases f with
+  cases f with
       | zero => cases hp
       | succ f =>
       cases ty with
@@ -110,5 +109,37 @@ theorem parse_spec_subOk {f : Nat} {ty : Ty} {toks : List ITok} {p : Init × Lis
             exact ⟨rfl, h1⟩
           · cases hs
         | _ => first | exact absurd rfl hb | cases hs
+
+
+/-- **parser = 6.7.9** for every declared type without an array of unknown bound or flexible array member, every token list and
+    every fuel: where both accept, outside the regions, they build the same tree and stop at the same token. -/
+theorem parse_spec_subOk {f : Nat} {ty : Ty} {toks : List ITok} {p : Init × List ITok} {r : Result} (ho : subOk ty = true)
+    (hp : initializer2 f ty toks (newInit ty true) = .ok p) (hs : initFull ty toks = .ok r) (hc : r.fl.clean = true) :
+    p.1 = r.obj ∧ p.2 = r.rest := by
+  cases toks with
+  | nil => cases hs
+  | cons tok r0 =>
+    by_cases hb : tok = .lbrace
+    · subst hb
+      cases hbl : bracedLit ty r0 with
+      | some tr =>
+        obtain ⟨tok1, r1⟩ := tr
+        rw [init2_bracedLit_eq _ hbl] at hp
+        rw [initFull_bracedLit hbl] at hs
+        exact parse_spec_subOk_tok ho (bracedLit_stops hbl).2 hp hs
+      | none =>
+        obtain ⟨c', rest⟩ := p
+        rw [newInit_true_eq ty ho] at hp
+        have hz : shaped ty (newInit ty false) = true := shaped_newInit ty ho
+        have hne : hasExpr (newInit ty false) = false := hasExpr_newInit ty false
+        obtain ⟨hs', hsim⟩ := braceSim_init2 ho hz hbl hp
+        unfold initFull at hs
+        simp only [hbl] at hs
+        obtain ⟨res, hres, hs⟩ := bind_eq_ok hs
+        cases hs
+        rw [newInit_true_eq ty ho, unflex_shaped hz] at hres
+        obtain ⟨h1, h2, h3⟩ := hsim hne true _ _ res hres hc
+        exact ⟨h1.symm, h2.symm⟩
+    · exact parse_spec_subOk_tok ho hb hp hs
 
 end ChibiVerif.InitSpec
